@@ -121,3 +121,43 @@ Theorem C05_run_n_total : forall l : list nstmt, run_n l <> [].
 Proof. exact @ExecNested.run_n_total. Qed.
 Print Assumptions C05_run_n_total.
 
+
+(* ---- compound statement contexts: try/except/else/finally, with, comprehensions (Model/ExecTry.v, Proofs/ExecTry.v); the comprehension clauses are stated for the visit order of repair 562a505, the order before it is refuted ---- *)
+From Sigtools.Model Require Import ExecTry.
+From Sigtools.Proofs Require Import ExecTry.
+Theorem C05_visitor_flags_t_absint : forall (va vk : N) (nm : tnames) (l : list tstmt), va <> vk -> fixed_ok va vk nm = true -> tblock_ok va vk l = true -> visitor_flags_t va vk nm l = Some (snd (absint_tb l (true, true))).
+Proof. exact @ExecTry.visitor_flags_t_absint. Qed.
+Print Assumptions C05_visitor_flags_t_absint.
+
+Theorem C05_flags_sound_try : forall (va vk : N) (nm : tnames) (l : list tstmt) (fls : list flags), va <> vk -> fixed_ok va vk nm = true -> tblock_ok va vk l = true -> visitor_flags_t va vk nm l = Some fls -> forall (r : outcome) (e : event), In r (run_t l) -> In e (o_ev r) -> (ev_site e < length fls)%nat /\ flag_sound (nth (ev_site e) fls dflags) e.
+Proof. exact @ExecTry.flags_sound_try. Qed.
+Print Assumptions C05_flags_sound_try.
+
+Theorem C05_flags_sound_try_general : forall (va vk : N) (l : list tstmt) (off : nat) (k : bool * bool) (st : sem) (r : outcome), tblock_ok va vk l = true -> le_abs k st -> In r (exec_tb l off st) -> le_abs (fst (absint_tb l k)) (o_st r) /\ (forall e : event, In e (o_ev r) -> (off <= ev_site e < off + tcalls_block l)%nat /\ flag_sound (nth (ev_site e - off) (snd (absint_tb l k)) dflags) e).
+Proof. exact @ExecTry.flags_sound_try_general. Qed.
+Print Assumptions C05_flags_sound_try_general.
+
+Theorem C05_exec_t_total : forall (l : list tstmt) (off : nat) (st : sem), exists r : outcome, In r (exec_tb l off st) /\ o_prop r = false.
+Proof. exact @ExecTry.exec_t_total. Qed.
+Print Assumptions C05_exec_t_total.
+
+Theorem C05_run_t_total : forall l : list tstmt, run_t l <> [].
+Proof. exact @ExecTry.run_t_total. Qed.
+Print Assumptions C05_run_t_total.
+
+Theorem C05_exec_t_may_raise : forall (x : tstmt) (l : list tstmt) (off : nat) (st : sem), In (st, [], true) (exec_tb (x :: l) off st).
+Proof. exact @ExecTry.exec_t_may_raise. Qed.
+Print Assumptions C05_exec_t_may_raise.
+
+Theorem C05_flags_sound_old_order_refuted : exists (fls : list flags) (r : outcome) (e : event), flags_of 1 2 [compile_mut_old 1 2 default_tnames 30 (SFwd 5 0 [] false true)] = Some fls /\ In r (run_t mut_witness) /\ In e (o_ev r) /\ ev_site e = 1%nat /\ ~ flag_sound (nth 0 fls dflags) e.
+Proof. exact @ExecTry.flags_sound_old_order_refuted. Qed.
+Print Assumptions C05_flags_sound_old_order_refuted.
+
+Theorem C05_flags_sound_old_order_shadow_refuted : exists (fls : list flags) (r : outcome) (e : event), flags_of 1 2 [compile_shadow_old 1 2 SK (SFwd 5 0 [] false true)] = Some fls /\ In r (run_t shadow_witness) /\ In e (o_ev r) /\ ev_site e = 0%nat /\ ~ flag_sound (nth 0 fls dflags) e.
+Proof. exact @ExecTry.flags_sound_old_order_shadow_refuted. Qed.
+Print Assumptions C05_flags_sound_old_order_shadow_refuted.
+
+Theorem C05_witnesses_repaired : tblock_ok 1 2 mut_witness = true /\ tblock_ok 1 2 shadow_witness = true /\ visitor_flags_t 1 2 default_tnames mut_witness = Some [dflags; (false, false, false, true)] /\ visitor_flags_t 1 2 default_tnames shadow_witness = Some [(false, false, false, true)].
+Proof. exact @ExecTry.witnesses_repaired. Qed.
+Print Assumptions C05_witnesses_repaired.
+
